@@ -1,5 +1,12 @@
-import os, sys, hashlib
+import os, sys, hashlib, itertools
 from vf import Check, Stream, hexs, VERIF
+
+# Property C13.  One case = one history of one Server client created by Server::pair, driven between
+# run() calls (and, with `react`, from inside its callbacks) under the simulated kernel
+# (harness/serverwrite_kernel.cpp: send / epoll_ctl / epoll_wait interposed).  Op lines:
+#   write <hex> <outcome>   ev <mask> <outcome>   poll <outcome>   tick   suspend   resume   read <max>
+#   remove   peerwrite <hex>   peerread   peerclose   react <onRead|onWrite|onClosed> <op...>
+# outcome of the ONE send the operation may issue: wb | s<k> | full | zero | err ; mask: letters of i o h, or -
 
 
 def data(rng, n, kind=0):
@@ -8,34 +15,291 @@ def data(rng, n, kind=0):
     return bytes((i * 7 + kind) & 0xff for i in range(n))
 
 
+class Seq:
+    """distinct byte values in call order, so that loss / duplication / reordering shows in the stream"""
+    def __init__(self, start=1):
+        self.v = start
+
+    def take(self, n):
+        b = bytes(((self.v + i) & 0xff) for i in range(n))
+        self.v = (self.v + n) & 0xff
+        return b
+
+
+OUTCOMES_BENIGN = ['wb', 's1', 's2', 's3', 'full']
+MASKS = ['-', 'i', 'o', 'h', 'io', 'ih', 'oh', 'ioh']
+
+
+def sent_of(outcome, n):
+    """bytes the simulated kernel takes from a send of n bytes; None = failure"""
+    if outcome == 'wb':
+        return 0
+    if outcome in ('zero', 'err'):
+        return None
+    if outcome == 'full':
+        return n if n > 0 else None
+    k = max(int(outcome[1:]), 1)
+    k = min(k, n)
+    return k if k > 0 else None
+
+
+class Track:
+    """what the generator believes about the client (used only to aim the next operation)"""
+    def __init__(self):
+        self.backlog = 0
+        self.susp = False
+        self.gone = False
+
+    def write(self, n, outcome):
+        if self.backlog > 0:
+            self.backlog += n
+            return
+        s = sent_of(outcome, n)
+        if s is None:
+            self.gone = True          # closing: the application is told by onClosed
+        else:
+            self.backlog = n - s
+
+    def ev(self, mask, outcome):
+        if self.backlog > 0 and ('o' in mask or ('h' in mask and (self.susp or not ('i' in mask or 'h' in mask)))):
+            s = sent_of(outcome, self.backlog)
+            if s is None:
+                self.backlog = 0
+                self.gone = True
+            else:
+                self.backlog -= s
+
+
+def aimed_outcome(rng, n, allow_fail=False):
+    """an outcome for a send of n bytes aimed at the case splits: refuse / 1 / middle / n-1 / n / more than n"""
+    r = rng.random()
+    if allow_fail and r < 0.06:
+        return rng.choice(['zero', 'err'])
+    if r < 0.22:
+        return 'wb'
+    if r < 0.40:
+        return 'full'
+    if n <= 1:
+        return rng.choice(['s1', 'full', 'wb'])
+    pick = rng.choice([1, n - 1, n, n + 1, rng.randrange(1, n + 1), max(1, n // 2)])
+    return 's%d' % pick
+
+
 class C13(Check):
     id = 'C13'
     comp = 'ServerWrite'
     extracted = ['coq/ServerWrite/model.mli', 'coq/ServerWrite/model.ml', 'ocaml/zconv.ml', 'ocaml/serverwrite_driver.ml']
     harness_sources = ['harness/serverwrite.cpp', 'harness/serverwrite_kernel.cpp']
     per_case_timeout = 20
-    level_text = ''
-    level_note = ''
-    technique = ''
-    rule = ''
-    assumptions = []
+    level_text = ('Theorems in Coq about a model of one Server client (ClientImpl::write/read/suspend/resume, the client part of the '
+                  'dispatch in Server::Private::run, Poll::set/remove and the epoll event mapping), for EVERY history: the answer of '
+                  'the operating system to every send (would-block, any partial count, full, 0, error) and the readiness reported by '
+                  'every poll are inputs of the steps. Proved: bytes handed to the OS ++ backlog = concatenation in call order of the '
+                  'writes that returned true; peer bytes ++ bytes in flight = bytes handed to the OS; postponed / getSendBufferSize = '
+                  'accepted - handed over; onWrite in a step iff that step hands the whole non-empty backlog over (at most one '
+                  'callback per step); every event reporting the client writable offers the backlog to the OS whether or not it is '
+                  'also readable, and the backlog drains within |backlog| such events with exactly one onWrite; the dispatch rule of '
+                  'the code before fixes/C13/01 starves the backlog forever (theorem with witness); a suspended client gets no onRead; '
+                  'interest set invariant; the model refines the reference object the implementation is judged against. The model is '
+                  'tied to the code by running the extracted model, the extracted reference object and the ASan/UBSan build of the '
+                  'working tree on the same histories under a simulated kernel (send/epoll_ctl/epoll_wait interposed): return values, '
+                  'postponed, getSendBufferSize, isSuspended, callbacks, intercepted send calls, bytes handed to the OS, epoll '
+                  'registration mask and the byte stream read at the peer end of the socket pair are compared line by line.')
+    level_note = ('partial: the kernel\'s in-order delivery of the bytes it accepted (stream socket semantics) is assumed (the model\'s wire '
+                  'is a FIFO; the harness does read the peer end of a real socket pair and compares). One client; other clients, '
+                  'listeners, timers of the same loop are C14. Validated by correspondence only: that Server.cpp/Socket.cpp behave as '
+                  'the model (differential, simulated kernel); Buffer internals are C08. Modelled as input: every send result, every '
+                  'epoll readiness report, peer behaviour, order of application calls. Trusted: Coq kernel, extraction + OCaml driver, '
+                  'harness + interposed kernel.')
+    technique = 'Coq proof (invariant + induction over histories + refinement to a reference object) ; differential correspondence under a simulated kernel'
+    rule = ('cases = histories of write(size, send outcome) / poll event(readiness mask, send outcome) / real-epoll poll / tick / '
+            'suspend / resume / read / peer write, read, close / remove, also issued from inside callbacks; exhaustive small scopes: '
+            'write size 0..5 x every outcome x second write x every outcome of the write-ready send; every readiness mask x '
+            '{backlog, none} x {suspended, not} x outcome; random histories aimed at partial counts 1, n-1, n, n+1. A case is '
+            'non-trivial when the implementation had a backlog at some point (sb>0), or got a poll event while suspended, or gave '
+            'the connection up; distinct = distinct op text')
+    assumptions = ['stream socket: the kernel delivers the bytes it accepted from send, in order, to the peer (FIFO wire in the model)',
+                   'epoll is level-triggered and reports only registered events plus EPOLLHUP/EPOLLERR (kernel_filter in the model, '
+                   'the interposed epoll_wait in the harness)',
+                   'send returns -1/EAGAIN, -1/error, 0, or 1..n (send_ret); a send of 0 bytes returns 0',
+                   'callbacks do not re-enter Server::run']
 
     def __init__(self):
         Check.__init__(self)
         h = hashlib.sha256(open(os.path.join(VERIF, 'harness', 'serverwrite_kernel.h'), 'rb').read()).hexdigest()[:12]
         self.harness_flags = ['-DSK_HDR_HASH=0x' + h]      # header content takes part in the build key
 
+    def nontrivial(self, case, obs):
+        backlog = any((' sb=' in l and not l.split(' sb=')[1].startswith(('0 ', '- '))) for l in obs)
+        susp_ev = any((' susp=1' in l and l.split(' ')[1] in ('ev', 'poll')) for l in obs if len(l.split(' ')) > 1)
+        gave_up = any(' cb=onClosed' in l for l in obs)
+        return backlog or susp_ev or gave_up
+
+    def judge(self, cases, impl_obs, spec_obs):
+        """The reference object stops making claims once the application goes on using a connection that
+        was given up (line `??*`): from there on nothing is compared (which reactions fire is unknown to it)."""
+        ss, ii = [], []
+        for s, o in zip(spec_obs, impl_obs):
+            k = next((j for j, l in enumerate(s) if l == '??*'), None)
+            if k is not None:
+                s, o = s[:k], o[:k]
+            ss.append(s)
+            ii.append(o)
+        return Check.judge(self, cases, ii, ss)
+
+    # ---- generators ----------------------------------------------------------------------------
+    def gen_write_matrix(self, thorough):
+        """exhaustive: first write (size x outcome) ; second write (size x outcome) ; write-ready send outcome"""
+        cases = []
+        sizes = range(0, 6 if thorough else 5)
+        outs = lambda n: ['wb', 'full', 'zero', 'err'] + ['s%d' % k for k in range(1, n + 2)]
+        for n1 in sizes:
+            for o1 in outs(n1):
+                seq = Seq()
+                w1 = 'write %s %s' % (hexs(seq.take(n1)), o1)
+                s1 = sent_of(o1, n1)
+                for n2 in ([0, 2] if not thorough else [0, 1, 3]):
+                    d2 = seq.take(n2)
+                    for o2 in (['wb', 'full', 's1', 'err'] if not thorough else outs(n2)):
+                        rest = (n1 - s1 if s1 is not None else 0)
+                        rest2 = rest + n2 if rest > 0 else ((n2 - (sent_of(o2, n2) or 0)) if sent_of(o2, n2) is not None else 0)
+                        evs = ['wb', 'full', 'zero', 'err'] + ['s%d' % k for k in sorted(set([1, max(1, rest2 - 1), rest2, rest2 + 1]))]
+                        for o3 in (evs if (thorough or n2 == 2) else ['full', 's1']):
+                            cases.append([w1, 'write %s %s' % (hexs(d2), o2), 'ev o ' + o3, 'tick', 'ev o full', 'peerread'])
+        return Stream('write-matrix', cases, exhaustive=True,
+                      note='write size x send outcome x second write x outcome of the write-ready send (exhaustive in the scope)')
+
+    def gen_mask_matrix(self, thorough):
+        """exhaustive: state (backlog? suspended? unread input? peer closed?) x readiness mask x outcome"""
+        cases = []
+        for backlog in (False, True):
+            for susp in (False, True):
+                for inbound in (False, True):
+                    pre = []
+                    if backlog:
+                        pre.append('write 0102030405 s2')
+                    if inbound:
+                        pre.append('peerwrite aabb')
+                    if susp:
+                        pre.append('suspend')
+                    for mask in MASKS:
+                        for o in (['wb', 's1', 's2', 's3', 's4', 'full', 'zero', 'err'] if backlog else ['full']):
+                            cases.append(pre + ['ev %s %s' % (mask, o), 'ev %s full' % mask, 'tick', 'resume', 'poll full', 'peerread'])
+                            if thorough or mask in ('io', 'ioh', 'o'):
+                                cases.append(pre + ['react onRead read 1', 'ev %s %s' % (mask, o), 'poll full', 'poll s1', 'poll full', 'peerread'])
+        return Stream('mask-matrix', cases, exhaustive=True,
+                      note='readiness mask x {backlog,none} x {suspended,not} x {unread input,none} x outcome (exhaustive in the scope)')
+
+    def gen_starve(self, rng, thorough):
+        """a client that stays readable while it has a backlog: real epoll (poll) and scripted events"""
+        cases = []
+        for n in range(2, 8 if thorough else 6):
+            for k in range(0, n):
+                seq = Seq()
+                o = 'wb' if k == 0 else 's%d' % k
+                w = 'write %s %s' % (hexs(seq.take(n)), o)
+                for rounds in (1, 3):
+                    # the application does not read: the socket stays readable (level-triggered)
+                    cases.append([w, 'peerwrite 99'] + ['poll s1'] * rounds + ['poll full', 'peerread'])
+                    cases.append([w, 'peerwrite 99'] + ['ev io s1'] * rounds + ['ev io full', 'peerread'])
+                    # the peer keeps sending: every onRead reads everything, the peer sends again
+                    ops = [w]
+                    for r in range(rounds):
+                        ops += ['peerwrite %02x' % (0x80 + r), 'react onRead read 100', 'poll s1']
+                    ops += ['peerwrite ff', 'poll full', 'peerread']
+                    cases.append(ops)
+        return Stream('readable-with-backlog', cases, note='write-readiness must be handled while the client stays readable')
+
+    def gen_histories(self, rng, count, fail_rate, react_rate, name, note):
+        cases = []
+        for _ in range(count):
+            seq = Seq(rng.randrange(256))
+            t = Track()
+            ops = []
+            n_ops = rng.randrange(4, 28)
+            big = rng.random() < 0.08
+            for _ in range(n_ops):
+                r = rng.random()
+                if r < 0.30:
+                    n = rng.choice([0, 1, 1, 2, 3, 4, 5, 7, 8, 16, 33]) if not big else rng.choice([1, 100, 1000, 5000, 20000])
+                    if rng.random() < 0.9 and n == 0:
+                        n = 2
+                    o = aimed_outcome(rng, n, allow_fail=rng.random() < fail_rate)
+                    ops.append('write %s %s' % (hexs(seq.take(n)), o))
+                    t.write(n, o)
+                elif r < 0.55:
+                    mask = rng.choice(['o', 'o', 'io', 'io', 'i', 'oh', 'ioh', 'h', 'ih', '-'])
+                    o = aimed_outcome(rng, max(t.backlog, 1), allow_fail=rng.random() < fail_rate)
+                    ops.append('ev %s %s' % (mask, o))
+                    t.ev(mask, o)
+                elif r < 0.63:
+                    o = aimed_outcome(rng, max(t.backlog, 1), allow_fail=rng.random() < fail_rate)
+                    ops.append('poll ' + o)
+                    t.ev('o', o)
+                elif r < 0.70:
+                    ops.append('suspend'); t.susp = True
+                elif r < 0.77:
+                    ops.append('resume'); t.susp = False
+                elif r < 0.83:
+                    ops.append('peerread')
+                elif r < 0.88:
+                    ops.append('peerwrite ' + hexs(data(rng, rng.randrange(1, 5))))
+                elif r < 0.92:
+                    ops.append('read %d' % rng.choice([1, 2, 100]))
+                elif r < 0.95:
+                    ops.append('tick')
+                elif r < 0.95 + react_rate:
+                    cb = rng.choice(['onRead', 'onWrite', 'onClosed'])
+                    inner = rng.choice(['read 100', 'read 1', 'suspend', 'resume', 'write %s %s' % (hexs(seq.take(2)), rng.choice(OUTCOMES_BENIGN)),
+                                        'write %s full' % hexs(seq.take(1)), 'remove' if rng.random() < 0.3 else 'read 3', 'tick'])
+                    ops.append('react %s %s' % (cb, inner))
+                elif rng.random() < fail_rate:
+                    ops.append(rng.choice(['peerclose', 'remove']))
+                else:
+                    ops.append('peerread')
+            # drain and let the peer read everything
+            ops += ['resume', 'ev o full', 'ev o full', 'peerread']
+            cases.append(ops)
+        return Stream(name, cases, note=note)
+
+    def gen_boundary(self, rng):
+        seq = Seq()
+        c = []
+        # write returning false, then the closing pass ; zero-length writes
+        for o in ('zero', 'err', 'full', 'wb', 's1'):
+            c.append(['write - ' + o, 'tick', 'write 01 full', 'peerread'])
+            c.append(['write 0102 wb', 'write - ' + o, 'ev o full', 'peerread'])
+            c.append(['write 0102 ' + o, 'react onClosed remove', 'tick', 'write 03 full', 'tick'])
+        # give-up of the backlog, use after give-up, remove from callbacks
+        c.append(['write 010203 s1', 'ev o err', 'write 04 full', 'ev o full', 'peerread', 'remove'])
+        c.append(['write 010203 s1', 'ev o zero', 'suspend', 'resume', 'tick', 'remove', 'write 05 full'])
+        c.append(['write 010203 s1', 'react onClosed remove', 'ev o err', 'tick', 'peerread'])
+        c.append(['write 010203 s1', 'react onWrite remove', 'ev io full', 'tick', 'ev o full'])
+        c.append(['write 010203 s1', 'peerwrite 07', 'react onRead remove', 'ev io s1', 'tick', 'ev io full'])
+        c.append(['write 010203 wb', 'react onWrite write 0405 wb', 'ev o full', 'ev o s1', 'ev o full', 'peerread'])
+        c.append(['write 010203 wb', 'react onWrite write 0405 full', 'react onWrite suspend', 'ev io full', 'ev io full', 'peerread'])
+        # suspended clients: no onRead whatever is reported ; hang-up routed to the write part
+        c.append(['suspend', 'peerwrite 0a', 'ev i full', 'ev ih full', 'ev ioh full', 'poll full', 'resume', 'react onRead read 9', 'poll full'])
+        c.append(['write 0102 wb', 'suspend', 'peerwrite 0a', 'ev ih s1', 'ev h full', 'resume', 'poll full', 'peerread'])
+        c.append(['suspend', 'suspend', 'write 0102 wb', 'resume', 'resume', 'ev io full', 'suspend', 'ev io full', 'peerread'])
+        # peer closes: end of stream, backlog towards a closed peer
+        c.append(['peerclose', 'react onRead read 10', 'poll full', 'react onClosed remove', 'tick', 'write 00 full'])
+        c.append(['write 010203 s1', 'peerclose', 'react onRead read 10', 'poll full', 'tick', 'ev oh err', 'tick'])
+        c.append(['peerwrite 0a0b0c', 'poll full', 'react onRead read 2', 'poll full', 'suspend', 'poll full', 'resume', 'react onRead read 2', 'poll full', 'poll full'])
+        # large blocks through the real socket pair
+        for n, k in ((20000, 1), (20000, 19999), (30000, 16384), (4096, 4095)):
+            d = data(rng, n, 3)
+            c.append(['write %s s%d' % (hexs(d), k), 'write %s full' % hexs(d[:100]), 'ev o s%d' % (n // 2), 'ev io s1', 'ev o full', 'peerread'])
+        return Stream('boundary', c, note='write returning false, zero-length writes, give-up, remove inside callbacks, hang-up, large blocks')
+
     def streams(self, tier, rng):
-        cases = [
-            ['write 010203 full', 'peerread'],
-            ['write 0102030405 s2', 'write 0607 full', 'ev o s1', 'ev o full', 'peerread'],
-            ['write 0102 wb', 'suspend', 'ev io wb', 'resume', 'ev io full', 'ev o full'],
-            ['write 0102 wb', 'ev o err', 'tick', 'remove'],
-            ['peerwrite 0a0b0c', 'poll full', 'react onRead read 2', 'poll full', 'suspend', 'poll full', 'resume', 'poll full'],
-            ['write - full', 'tick'],
-            ['peerclose', 'react onRead read 10', 'poll full', 'react onClosed remove', 'tick', 'write 00 full'],
-        ]
-        return [Stream('smoke', cases)]
+        thorough = tier == 'thorough'
+        out = [self.gen_write_matrix(thorough), self.gen_mask_matrix(thorough), self.gen_starve(rng, thorough), self.gen_boundary(rng)]
+        out.append(self.gen_histories(rng, 6000 if thorough else 900, 0.0, 0.04, 'benign-histories',
+                                      'send outcomes would-block / partial / full only (the property\'s quantifier), partial counts aimed at 1, n-1, n, n+1'))
+        out.append(self.gen_histories(rng, 3000 if thorough else 400, 0.5, 0.05, 'faulty-histories',
+                                      'also send errors, 0 returns, peer close, remove, use after give-up'))
+        return out
 
 
 CHECK = C13
